@@ -99,12 +99,87 @@ fn run_prim(prim: &str, len: usize) -> (u64, Option<usize>, usize) {
     }
 }
 
+fn fnv(bytes: &[u8]) -> u64 {
+    let mut h = 0xcbf29ce484222325u64;
+    for b in bytes { h ^= *b as u64; h = h.wrapping_mul(0x100000001b3); }
+    h >> 2
+}
+
+/// CLI commands built on the primitives, run as the user runs them with `--num-threads t`
+/// (each command builds a pool of t threads and calls the primitive inside `install`):
+/// `build dcf` (ordered variant), `analyze codes` (par_map_fold_with), `run llp`
+/// (par_apply inside layered label propagation, which also computes the gap cost).
+/// Returns (value, expected value, number of chunks).
+fn run_cli(what: &str, n: usize, t: usize) -> anyhow::Result<(u64, u64, usize)> {
+    let dir = tempfile::Builder::new().prefix("wgverif-pmfcli").tempdir()?;
+    let base = dir.path().join("g");
+    // a symmetric graph: ring with chords
+    let mut arcs = Vec::new();
+    for i in 0..n {
+        for d in [1usize, 7, 31] {
+            let j = (i + d) % n;
+            if i != j { arcs.push((i, j)); arcs.push((j, i)); }
+        }
+    }
+    arcs.sort_unstable();
+    arcs.dedup();
+    let vg = VecGraph::from_arcs(arcs);
+    BvComp::with_basename(&base).comp_graph::<dsi_bitstream::prelude::BE>(&vg)?;
+    let b = base.to_str().unwrap().to_string();
+    let ts = t.to_string();
+    let cli = |a: &[&str]| -> anyhow::Result<()> {
+        let mut v = vec!["webgraph"];
+        v.extend_from_slice(a);
+        webgraph_cli::cli_main(v)
+    };
+    cli(&["build", "ef", &b])?;
+    let chunks = n.div_ceil(100);
+    match what {
+        "cli_dcf" => {
+            cli(&["build", "dcf", &b, "-t", &ts, "--node-granularity", "100"])?;
+            let par = std::fs::read(base.with_extension("dcf"))?;
+            std::fs::remove_file(base.with_extension("dcf"))?;
+            cli(&["build", "dcf", &b, "--sequential"])?;
+            let seq = std::fs::read(base.with_extension("dcf"))?;
+            Ok((fnv(&par), fnv(&seq), chunks))
+        }
+        "cli_codes" => {
+            cli(&["analyze", "codes", &b, "-t", &ts, "--node-granularity", "100"])?;
+            Ok((1, 1, chunks))
+        }
+        "cli_llp" => {
+            cli(&["build", "dcf", &b, "--sequential"])?;
+            let perm = dir.path().join("g.perm");
+            cli(&["run", "llp", &b, perm.to_str().unwrap(), "-t", &ts, "--node-granularity", "100",
+                  "-g=-0,-1", "-u", "4"])?;
+            // the output is a permutation of the nodes
+            // default format: ASCII, one integer per line
+            let text = std::fs::read_to_string(&perm)?;
+            let mut p: Vec<u64> = text.split_whitespace().map(|c| c.parse().unwrap()).collect();
+            p.sort_unstable();
+            let ok = p.len() == n && p.iter().enumerate().all(|(i, x)| *x == i as u64);
+            Ok((ok as u64, 1, chunks + 1))
+        }
+        _ => anyhow::bail!("unknown command {what}"),
+    }
+}
+
 /// Child mode: `harness pmfchild <prim> <len> <site> <pool>`; prints one line.
 pub fn child(args: &[String]) {
     let prim = args[2].clone();
     let len: usize = args[3].parse().unwrap();
     let site = args[4].clone();
     let pool: usize = args[5].parse().unwrap();
+    if prim.starts_with("cli_") {
+        let r = catch(std::panic::AssertUnwindSafe(|| run_cli(&prim, len, pool)));
+        // the commands print to stdout: our line starts on a fresh line
+        match r {
+            Ok(Ok((v, e, items))) => println!("\nstatus=ok value={v} cliexpect={e} hint=none items={items} threads={pool}"),
+            Ok(Err(e)) => println!("\nstatus=err:{}", sanitize(&format!("{e:#}"))),
+            Err(p) => println!("\nstatus=panic:{}", sanitize(&p)),
+        }
+        return;
+    }
     let work = move || {
         let threads = rayon::current_num_threads();
         let (v, h, items) = run_prim(&prim, len);
@@ -162,7 +237,7 @@ fn run_child(c: &Case, watchdog: Duration) -> Option<String> {
                 let mut s = String::new();
                 use std::io::Read;
                 ch.stdout.take().unwrap().read_to_string(&mut s).unwrap();
-                let line = s.lines().next().unwrap_or("status=panic:no-output").to_string();
+                let line = s.lines().find(|l| l.starts_with("status=")).unwrap_or("status=panic:no-output").to_string();
                 return Some(line);
             }
             None => {
@@ -251,6 +326,13 @@ pub fn run(seed: u64, mode: &str, out: &mut impl Write) {
         }
     }
     let _ = known;
+    // the CLI commands with --num-threads t, global pool of g threads
+    for (prim, n) in [("cli_dcf", 3000usize), ("cli_codes", 3000), ("cli_llp", 3000), ("cli_dcf", 150), ("cli_llp", 250)] {
+        for (t, g) in [(1usize, 1usize), (1, 4), (2, 1), (4, 4)] {
+            if !thorough && n < 1000 && t != 1 { continue; }
+            cases.push(Case { prim, len: n, site: "cli", pool: t, g, seed: rng.next() });
+        }
+    }
     let watchdog = Duration::from_secs(10);
     let results: Vec<Mutex<Option<String>>> = cases.iter().map(|_| Mutex::new(None)).collect();
     let next = AtomicUsize::new(0);
@@ -278,8 +360,9 @@ pub fn run(seed: u64, mode: &str, out: &mut impl Write) {
     });
     for (i, c) in cases.iter().enumerate() {
         let r = results[i].lock().unwrap().take().unwrap();
+        let ord = is_ord(c.prim) || c.prim == "cli_dcf";
+        let e = if c.prim.starts_with("cli_") { 0 } else { expect(c.prim, c.len) };
         writeln!(out, "pmf id=p{i} prim={} variant={} len={} site={} pool={} g={} seed={} expect={} {}",
-            c.prim, if is_ord(c.prim) { "ord" } else { "unord" }, c.len, c.site, c.pool, c.g, c.seed % 1_000_000,
-            expect(c.prim, c.len), r).unwrap();
+            c.prim, if ord { "ord" } else { "unord" }, c.len, c.site, c.pool, c.g, c.seed % 1_000_000, e, r).unwrap();
     }
 }
